@@ -14,6 +14,7 @@ EXPLANATION = (
 def run(e, R, tier):
     R.run_rules(e, [
         L.r_lock_order,
+        L.r_iter_snapshot,
         X.r_resize,
         lambda e, R: L.r_poll(e, R, only_funcs={f.qualname for f in e.prog.funcs.values() if f.module.name == "loky.reusable_executor"}),
         L.r_wake,
